@@ -95,7 +95,7 @@ structure DS where
   synced : List (Nat × List Op) := []   -- (index just after an fsync, entries loadable from the disk then), newest first
   tickSyncs : Bool := true      -- fileWriterHandler → chronicler.Sync → FileWriter.Sync → fsync, all present
   mres : List String := []      -- result text of each operation of `mops` (C25; "ok" otherwise)
-  fc : FCfg := ⟨true, false, false, false⟩
+  fc : FCfg := ⟨true, false, false, false, true, false⟩
   rs : List Res := []           -- results announced for the next region (C25)
   firstFault : Option String := none
   phantom : List Nat := []      -- header bytes of a block whose header write fails in this region (C25)
